@@ -5,7 +5,7 @@
    labels: which thread moves, which ready select case is taken, when the context
    ends); [run] skips labels that are not enabled. *)
 From Coq Require Import List ZArith Bool Arith Permutation.
-From GZ Require Import C10.Model C10.AtomicErr C10.Proofs C10.ProofsT C10.ProofsQ C10.ProofsM C10.ProofsS C10.ProofsC C10.ProofsP C10.ProofsL C10.ProofsA C10.ProofsV.
+From GZ Require Import C10.Model C10.AtomicErr C10.Proofs C10.ProofsT C10.ProofsQ C10.ProofsM C10.ProofsS C10.ProofsC C10.ProofsP C10.ProofsL C10.ProofsA C10.ProofsV C10.ProofsW.
 Import ListNotations.
 
 (* At most [workers] mapper functions run at any time (and the pool never holds more
@@ -561,3 +561,48 @@ Example void_cfg_example :
   void_cfg (mkCfg VFixed false 2%nat [USend 1%Z; USend 2%Z]
                   (fun x => if Z.eqb x 1 then [UWrite 10%Z] else [UCancel (Some 5%Z)]) [URecv] false).
 Proof. split; reflexivity. Qed.
+
+(* ---- final-state form: a normal "nothing" result means nothing was cancelled ---- *)
+(* done / output are closed either by a cancel body (the once is then done) or by the reducer
+   goroutine's epilogue (the goroutine has then ended) *)
+Theorem finished_by_cancel_or_reducer_end : forall c sched,
+  let s := run c (init c) sched in
+  finished s = true -> cstate s = CDone \/ redpc s = Fin.
+Proof. exact inv_f_all. Qed.
+Print Assumptions finished_by_cancel_or_reducer_end.
+
+(* a call that returns ErrReduceNoOutput (MapReduce / MapReduceChan; mapped to nil by MapReduceVoid /
+   Finish) or simply returns (ForEach / FinishVoid) has executed NO cancel call and never took the
+   context branch, up to and including its return - every API, every schedule, all scripts, both
+   output protocols, every panicChan variant *)
+Theorem no_output_means_nothing_cancelled : forall c sched o,
+  let s := run c (init c) sched in
+  result s = Some o -> o = ONoOutput \/ o = OUnit -> g_cancels s = [].
+Proof. exact no_output_nothing_cancelled_l. Qed.
+Print Assumptions no_output_means_nothing_cancelled.
+
+Theorem cancelled_never_no_output : forall c sched o,
+  let s := run c (init c) sched in
+  result s = Some o -> g_cancels s <> [] -> o <> ONoOutput /\ o <> OUnit.
+Proof. exact cancelled_never_no_output_l. Qed.
+Print Assumptions cancelled_never_no_output.
+
+(* MapReduceVoid / Finish, final state: the call returns nil (its adapter maps the inner
+   ErrReduceNoOutput to nil) only if no cancel call was executed and the context branch was not taken;
+   otherwise it returns an error passed to cancel / the context error, or re-raises a panic *)
+Theorem void_nil_means_nothing_cancelled : forall c sched o,
+  void_cfg c ->
+  let s := run c (init c) sched in
+  result s = Some o ->
+  (o = ONoOutput /\ g_cancels s = [] /\ void_post false o = OUnit)
+  \/ (exists e, o = OErr e /\ ((e = ECtx /\ ctx_done s = true) \/ In e (g_cancels s)))
+  \/ (exists p, o = OPanic p).
+Proof. exact void_nil_l. Qed.
+Print Assumptions void_nil_means_nothing_cancelled.
+
+Example no_output_example :
+  let c := mkCfg VFixed false 1%nat [] (fun _ => []) [] false in
+  let s := run c (init c) [LGen; LGen; LGen; LExec false; LExec false; LExec false; LExec false; LExec false;
+                           LExec false; LRed; LRed; LRed; LRed; LMain BOut; LMain BOut; LMain BOut; LMain BOut] in
+  result s = Some ONoOutput /\ g_cancels s = [].
+Proof. vm_compute. split; reflexivity. Qed.
